@@ -146,7 +146,7 @@ Qed.
 
 Lemma step_spec st o : Inv st -> Inv (fst (step st o)) /\ snd (step st o) = spec o.
 Proof.
-  intros HI. destruct o as [off size|s e d]; cbn [ChunkCache.step ChunkCache.spec].
+  intros HI. destruct o as [off size|s e d|off size]; cbn [ChunkCache.step ChunkCache.spec]; [| |split; [exact HI|reflexivity]].
   - destruct (size =? 0) eqn:C0; [split; [exact HI|reflexivity]|].
     destruct (two64 <=? off + size) eqn:C1; [split; [exact HI|reflexivity]|].
     destruct (flen <? off + size) eqn:C2; [split; [exact HI|reflexivity]|]. cbn [orb].
